@@ -139,7 +139,7 @@ def run(ctx):
     machine = Machine("x86_32")
     items, meta = [], []
     skipped = 0
-    for n in range(150 if q else 2000):
+    for n in range(150 if q else 900):
         chains = gen_program(rng)
         src = source(chains)
         # the witness: every chain pinned, in a random order, with random gaps
